@@ -78,6 +78,13 @@ def status_own(ctx: Ctx, rule="R-C20-STATUS-OWN") -> None:
                     return not failed
                 if isinstance(l, ast.Name) and l.id in ("exc", "exception", "error"):
                     return not failed
+                if isinstance(l, ast.Name):
+                    # bound to the result of a local helper that returns the task's exception (or None)
+                    for d_ in C.local_defs(f, l.id):
+                        if isinstance(d_, ast.Call):
+                            for cal in ctx.res.callees(f, d_):
+                                if any(isinstance(v, ast.Call) and isinstance(v.func, ast.Attribute) and v.func.attr == "exception" for v in C.returned_values(cal)):
+                                    return not failed
                 if _mentions(l, "_health_check_server"):
                     return False
             return None
